@@ -470,7 +470,7 @@ impl SubCheck for Batches {
 		"batches"
 	}
 	fn cases(&self, tier: Tier) -> u32 {
-		tier.pick(8_000, 250_000)
+		tier.pick(60_000, 1_200_000)
 	}
 	fn strategy(&self, tier: Tier) -> BoxedStrategy<BatchCase> {
 		let max = tier.pick(12usize, 40);
